@@ -133,6 +133,8 @@ class C09(Prop):
             else:
                 dtype, vals, enum = tc.gen_string_feature(rng, n)
                 c.update(fkind="string", kind=dtype, feature=vals, enum=enum)
+            if c["w"] is not None and c["fkind"] != "none" and rng.random() < 0.3:
+                c["w"] = tc.zero_some_weights(rng, c["feature"], c["w"])  # exposure 0 on some rows; every group keeps weight
             p = list(range(n))
             rng.shuffle(p)
             c["perm"] = p
